@@ -1170,7 +1170,12 @@ int KSI_AbstractNetworkClient_new(KSI_CTX *ctx, KSI_NetworkClient **client) {
 	}
 
 	tmp->ctx = ctx;
+	tmp->impl = NULL;
 	tmp->implFree = NULL;
+	/* The endpoints have to be valid for the cleanup even if their construction fails. */
+	tmp->aggregator = NULL;
+	tmp->extender = NULL;
+	tmp->publicationsFile = NULL;
 	tmp->sendExtendRequest = NULL;
 	tmp->sendPublicationRequest = NULL;
 	tmp->sendSignRequest = NULL;
